@@ -180,6 +180,39 @@ def run(ctx, idx):
     e = args.get("arguments")
     ok = False
     why = "arguments are `%s`" % K.src(e)
+    # shortcut form: the parsed list is passed through when it holds neither name -
+    #   names = [a.name for a in node.arguments]; if "X" in names or "Y" in names: arguments = [filter] else: arguments = node.arguments
+    shortcut = None
+    ra_ = raw_args.get("arguments")
+    if isinstance(ra_, ast.Name):
+        defs_sc = [n_ for n_ in own_nodes(fi.node) if isinstance(n_, ast.Assign) and len(n_.targets) == 1 and isinstance(n_.targets[0], ast.Name) and n_.targets[0].id == ra_.id]
+        ifs_sc = [n_ for n_ in own_nodes(fi.node) if isinstance(n_, ast.If) and len(defs_sc) == 2 and any(d_ in n_.body for d_ in defs_sc) and any(d_ in n_.orelse for d_ in defs_sc)]
+        if len(defs_sc) == 2 and len(ifs_sc) == 1:
+            if_ = ifs_sc[0]
+            filt_ = next(d_ for d_ in defs_sc if d_ in if_.body)
+            pass_ = next(d_ for d_ in defs_sc if d_ in if_.orelse)
+            if is_node_attr(pass_.value, "arguments") and isinstance(filt_.value, ast.ListComp):
+                tests_ = if_.test.values if isinstance(if_.test, ast.BoolOp) and isinstance(if_.test.op, ast.Or) else [if_.test]
+                tested, holders = set(), set()
+                for t_ in tests_:
+                    if isinstance(t_, ast.Compare) and len(t_.ops) == 1 and isinstance(t_.ops[0], ast.In) and isinstance(t_.left, ast.Constant) and isinstance(t_.comparators[0], ast.Name):
+                        tested.add(t_.left.value)
+                        holders.add(t_.comparators[0].id)
+                    else:
+                        tested = None
+                        break
+                if tested is not None and len(holders) == 1:
+                    hn_ = next(iter(holders))
+                    hdefs = [n_.value for n_ in own_nodes(fi.node) if isinstance(n_, ast.Assign) and any(isinstance(t_, ast.Name) and t_.id == hn_ for t_ in n_.targets)]
+                    if len(hdefs) == 1:
+                        hv_ = hdefs[0]
+                        comp_ = hv_.args[0] if isinstance(hv_, ast.Call) and K.src(hv_.func) in ("list", "set", "tuple", "frozenset") and len(hv_.args) == 1 else hv_
+                        names_ok = isinstance(comp_, (ast.ListComp, ast.SetComp, ast.GeneratorExp)) and len(comp_.generators) == 1 and not comp_.generators[0].ifs and is_node_attr(comp_.generators[0].iter, "arguments") \
+                            and isinstance(comp_.elt, ast.Attribute) and comp_.elt.attr == "name" and isinstance(comp_.elt.value, ast.Name) and isinstance(comp_.generators[0].target, ast.Name) and comp_.elt.value.id == comp_.generators[0].target.id
+                        one_shot = isinstance(hv_, ast.GeneratorExp)
+                        if names_ok:
+                            shortcut = (tested, one_shot, if_, hn_)
+                            e = filt_.value
     if isinstance(e, ast.ListComp) and len(e.generators) == 1:
         g = e.generators[0]
         if is_node_attr(g.iter, "arguments") and isinstance(e.elt, ast.Name) and isinstance(g.target, ast.Name) and e.elt.id == g.target.id and len(g.ifs) == 1:
@@ -244,6 +277,14 @@ def run(ctx, idx):
         verdict = _kept_by_name(idx, fi, raw_args["arguments"].id, is_node_attr)
         if verdict is not None:
             ok, why = verdict
+    if shortcut is not None and ok:
+        tested, one_shot, if_, hn_ = shortcut
+        if one_shot and len(tested) > 1:
+            ok, why = False, "`%s` is a generator: the first `in` test that fails has consumed it, so the second name is looked for in nothing - a command that carries only the second name keeps it (NoSuchParameter on the mapped command)" % hn_
+        elif not tested >= {"NewFieldName", "OutFileName"}:
+            ok, why = False, "the parsed argument list is passed through unless it holds %s: a command that carries %s keeps it" % (sorted(tested), sorted({"NewFieldName", "OutFileName"} - tested))
+        else:
+            why += "; the parsed list is passed through as it is only when it holds neither name"
     ctx.ob("C16.b", "%s::arguments" % fi.key, utils.rel, ctor.lineno, ok, why if ok else "converted arguments are not `old arguments minus {NewFieldName, OutFileName}` in order: %s" % why)
     # the conversion refuses a command only when none of the three name sources exists
     loop = next(n for n in own_nodes(fi.node) if isinstance(n, ast.For) and any(ctor is x for x in ast.walk(n)))
